@@ -51,7 +51,7 @@ def cases(tier):
             yield ("render", si, first, k)
     for first in range(-1, len(EVENTS)):
         yield ("hist", 3 if tier == "quick" else 4, first)
-    for model in range(len(MODELS)):
+    for model in range(len(FAULT_MODELS)):
         for layout in range(5):
             for via in ("api", "cli"):
                 yield ("fault", model, layout, via)
@@ -239,7 +239,23 @@ def _m2():
     ]
 
 
+def _m3():
+    """TWIN lines: three consecutive commands whose argument line has the same text (`InFieldName = A`); a fault in the last one has an
+    identical, innocent line one to three lines above it"""
+    q = lambda s: ("q", s)
+    b = lambda s: ("bare", s)
+    return [
+        ("A", "EEMSRead", [("InFileName", q("input.csv")), ("InFieldName", b("A"))]),
+        ("ACopy", "Copy", [("InFieldName", b("A"))]),
+        ("AFz", "CvtToFuzzy", [("InFieldName", b("A"))]),
+        ("NotA", "FuzzyNot", [("InFieldName", b("AFz"))]),
+        ("Twice", "Copy", [("InFieldName", b("A"))]),
+        ("Out", "EEMSWrite", [("OutFileName", q("out.csv")), ("OutFieldNames", ("list", [b("ACopy"), b("NotA"), b("Twice")]))]),
+    ]
+
+
 MODELS = [_m1(), _m2()]
+FAULT_MODELS = MODELS + [_m3()]  # (C12 / C15 use MODELS; the twin-line model only serves the fault family of this check)
 
 
 def _layout(its, which):
@@ -394,7 +410,7 @@ def _run_fault(case):
     viols, outcomes = [], {}
     evals = judged = 0
     sample = None
-    model = MODELS[mi]
+    model = FAULT_MODELS[mi]
     for fname, fm, (ci, ai), classes, level in [("none", model, (0, None), (), "none")] + _faults(model):
         its = G.items_of(fm)
         lay = _layout(its, 1 if layout == 4 else layout)
@@ -452,16 +468,30 @@ def _run_fault(case):
             if r.exception is not None and not isinstance(r.exception, SystemExit):
                 outcomes["cli-raw:" + type(r.exception).__name__] = outcomes.get("cli-raw:" + type(r.exception).__name__, 0) + 1
                 continue
-            marks = [ln for ln in stderr.split("\n") if ln.startswith("--> ")]
+            err_lines = stderr.split("\n")
+            marks = [i for i, ln in enumerate(err_lines) if ln.startswith("--> ")]
             src_lines = text.split("\n")
             cls = "cli"
             if not marks:
                 got_line = None
             else:
-                marked = marks[0][4:]
+                mi_ = marks[0]
+                marked = err_lines[mi_][4:]
+                # the context printed around the arrow (lines indented by four blanks) places it: the marked line is the source line whose
+                # neighbours are the printed neighbours (the text alone may occur several times in a file)
+                before, after = [], []
+                j = mi_ - 1
+                while j >= 0 and err_lines[j].startswith("    ") and len(before) < 3:
+                    before.insert(0, err_lines[j][4:])
+                    j -= 1
+                j = mi_ + 1
+                while j < len(err_lines) and err_lines[j].startswith("    ") and len(after) < 3:
+                    after.append(err_lines[j][4:])
+                    j += 1
                 cands = [i + 1 for i, ln in enumerate(src_lines) if ln == marked]
-                # the marked text must be a source line; resolve to a line number (ambiguity resolved in favour of acceptable lines)
-                got_line = cands if cands else -1
+                placed = [c for c in cands if src_lines[max(0, c - 1 - len(before)):c - 1] == before and src_lines[c:c + len(after)] == after]
+                # (a context that cannot be matched at all is left to the text-only resolution: blank context lines are printed unindented)
+                got_line = (placed or cands) if cands else -1
         judged += 1
         # acceptable lines
         if level == "command":
